@@ -25,7 +25,7 @@ def bid(p):
 
 def trace(P, fname, page_type, has_crc, verify, stored_crc, computed_crc, codec, levels=True, num_values=10,
           encoding=0, avail=100000, current_page=0, csize=None, usize=None, view_state=False, capacity=100000,
-          file_size=None, ptype=None, type_length=0, map_align=0):
+          file_size=None, ptype=None, type_length=0, map_align=0, dict_off=None, data_off=None, native_geometry=False):
     fn = P.fn(fname, PR)
     ro = sem.field_offsets(P, "carquet_column_reader")
     fo = sem.field_offsets(P, "carquet_reader")
@@ -40,8 +40,10 @@ def trace(P, fname, page_type, has_crc, verify, stored_crc, computed_crc, codec,
     csize = CSIZE if csize is None else csize
     usize = USIZE if usize is None else usize
     fsize = (avail + DATA_OFF) if file_size is None else file_size
+    dict_off = DICT_OFF if dict_off is None else dict_off
+    data_off = DATA_OFF if data_off is None else data_off
     heap0 = {("rd", ro["file_reader"]): Ptr("fr", 0, 1), ("rd", ro["col_meta"]): Ptr("cm", 0, 1),
-             ("rd", ro["has_dictionary"]): 1, ("rd", ro["data_start_offset"]): DATA_OFF, ("rd", ro["current_page"]): current_page,
+             ("rd", ro["has_dictionary"]): 1, ("rd", ro["data_start_offset"]): data_off, ("rd", ro["current_page"]): current_page,
              ("rd", ro["type"]): pt["CARQUET_PHYSICAL_INT32"] if ptype is None else ptype, ("rd", ro["type_length"]): type_length,
              ("rd", ro["max_def_level"]): 1 if levels else 0, ("rd", ro["max_rep_level"]): 0,
              ("rd", ro["decoded_ownership"]): own.get("CARQUET_DATA_VIEW", 1) if view_state else own.get("CARQUET_DATA_OWNED", 0),
@@ -50,8 +52,8 @@ def trace(P, fname, page_type, has_crc, verify, stored_crc, computed_crc, codec,
              ("rd", ro["decoded_rep_levels"]): Ptr("drl", 0, 2),
              ("fr", fo["mmap_data"]): Ptr("map", 0, 1), ("fr", fo["file_size"]): fsize, ("fr", fo["file"]): Ptr("FILE", 0, 1),
              ("fr", fo["options"] + oo["verify_checksums"]): 1 if verify else 0,
-             ("cm", mo["codec"]): codec, ("cm", mo["dictionary_page_offset"]): DICT_OFF,
-             ("cm", mo["has_dictionary_page_offset"]): 1, ("cm", mo["data_page_offset"]): DATA_OFF}
+             ("cm", mo["codec"]): codec, ("cm", mo["dictionary_page_offset"]): dict_off,
+             ("cm", mo["has_dictionary_page_offset"]): 1, ("cm", mo["data_page_offset"]): data_off}
     # the column reader is a calloc'ed object: members the scenario does not set are zero
     for f_ in P.record("carquet_column_reader")["fields"]:
         if f_.get("off") is not None and f_["n"] and "[" not in f_["t"] and P.records.get(f_["t"].replace("struct ", "").replace("_t", "")) is None:
@@ -118,9 +120,11 @@ def trace(P, fname, page_type, has_crc, verify, stored_crc, computed_crc, codec,
              "carquet_error_set": lambda ev, a, it: None,
              "carquet_read_dictionary_page": lambda ev, a, it: ev.append(("consume-dict", bid(a[1]), a[2])) or 0,
              "carquet_read_data_page_v1": read_page,
-             "memset": lambda ev, a, it: a[0], "memcpy": lambda ev, a, it: ev.append(("copy", bid(a[0]), bid(a[1]), a[2])) or a[0]}
+             "memset": lambda ev, a, it: ev.append(("memset", bid(a[0]), a[2])) or a[0], "memcpy": lambda ev, a, it: ev.append(("copy", bid(a[0]), bid(a[1]), a[2])) or a[0]}
     for st in ("snappy", "lz4", "gzip", "zstd"):
         hooks["carquet_%s_decompress" % st] = codec_hook(st)
+    if native_geometry:
+        del hooks["mmap_available"]     # the real availability / extent predicates are interpreted
     ret, ev, heap = sem.run(P, fn, [Ptr("rd", 0, 1), 0], heap0=heap0, hooks=hooks, single=True, max_forks=64, budget=200000, on_start=lambda: (nm.__setitem__(0, 0), fpos.__setitem__(0, 0)),
                             align={"map": map_align, "dv": 0, "ddl": 0, "drl": 0, "m1": 0, "m2": 0, "m3": 0, "m4": 0})
     view = heap.get(("rd", ro["decoded_values"]))
